@@ -1415,7 +1415,10 @@ def r_pixel_boxing(rule, root=None):
         rule.bad("pixel|unpack", "unpack must read the flag from bit 0 and the depth from bits 1-8 (what the writer stored), and return a distance unchanged", A.where(PIX, un))
     isd = A.find_fn(PIX, "is_distance", self_ty="RawDistancePixel", root=root)
     it = str(txt(isd["body"]))
-    if "if!self.0.is_nan(){returntrue;}" in it and "((bits&Self::KEY_MASK)!=Self::KEY)" in it:
+    it_v = str(txt(A.value_view(isd)["body"]))
+    two_step = "if!self.0.is_nan(){returntrue;}" in it and ("((bits&Self::KEY_MASK)!=Self::KEY)" in it or "((self.0.to_bits()&Self::KEY_MASK)!=Self::KEY)" in it_v)
+    one_expr = re.search(r"!self\.0\.is_nan\(\)\|\|\(?\(?(?:bits|self\.0\.to_bits\(\))&Self::KEY_MASK\)!=Self::KEY", it_v) is not None
+    if two_step or one_expr:
         rule.ok("every non-NaN value and every NaN without the key is a distance", file=PIX, line=isd["ln"])
     else:
         rule.bad("pixel|is_distance", "is_distance must hold for every non-NaN value and for NaNs whose masked bits differ from KEY", A.where(PIX, isd))
